@@ -15,7 +15,9 @@
 //! Spaces (each enumerated completely within its bound): hand-written + repository programs; all sequences of ≤ 3 resource
 //! declarations × pipeline shapes × usage; the contents of the declarations that have a body (every member list of ≤ 2
 //! (thorough ≤ 3) members, the empty list first, as a cbuffer / ConstantBuffer<T> / StructuredBuffer<T>, alone and next to
-//! every neighbour declaration, used and unused); every word of the exporters' reserved-name lists as the name of a
+//! every neighbour declaration, used and unused); the stage interface of graphics pipelines (every list of ≤ 2 attributes
+//! over element type × declarator shape × per-vertex / per-primitive rate, carried by a struct or by entry-point parameters on
+//! either side, for vertex+pixel and mesh+pixel pipelines); every word of the exporters' reserved-name lists as the name of a
 //! declaration; every single-token mutant of the fixed programs (rejected programs of every front-end error class).
 //! The quick tier thins the largest spaces by a stated rule (digit-sum classes, every 25th mutant), see `caps_hit`.
 
@@ -175,7 +177,7 @@ impl Case {
 
 fn space_tag(name: &str) -> &str {
     let head = name.split('|').next().unwrap_or("");
-    if matches!(head, "res1" | "res2-classes" | "res2-full" | "res3-classes" | "body" | "mutant" | "reserved-word") { head } else { "fixed" }
+    if matches!(head, "res1" | "res2-classes" | "res2-full" | "res3-classes" | "body" | "iface" | "mutant" | "reserved-word") { head } else { "fixed" }
 }
 
 fn pair(a: Cfg, b: Cfg) -> String {
@@ -1829,6 +1831,236 @@ fn body_cases(quick: bool) -> Vec<BodyCase> {
 }
 
 // ---------------------------------------------------------------------------------------------
+// space 2c: the stage interface of graphics pipelines (G-IFACE). The programs above hand a fixed set of scalar / vector
+// attributes from stage to stage. Here the attributes themselves are enumerated: every list of 0..=2 attributes over
+// element type × declarator shape (plain, `[1]`, `[2]`, `[2][3]`) × rate (per vertex, per primitive: mesh pipelines only) ×
+// interpolation modifier on the pixel side, produced through a struct or through entry-point parameters, and consumed by the
+// pixel entry point through parameters or through a struct, for vertex+pixel and mesh+pixel pipelines. (Added after a seeded
+// change that made the Vulkan flavour refuse an array-typed per-primitive pixel parameter was missed: every generated pixel
+// input had been a scalar or a vector.)
+
+#[derive(Copy, Clone)]
+struct ElemTy {
+    ty: &'static str,
+    /// a value of the type
+    lit: &'static str,
+    /// suffix that reads a scalar out of a value of the type
+    scalar: &'static str,
+}
+
+const IFACE_TYPES: [ElemTy; 7] = [
+    ElemTy { ty: "float", lit: "1.0", scalar: "" },
+    ElemTy { ty: "uint3", lit: "uint3(1, 2, 3)", scalar: ".z" },
+    ElemTy { ty: "uint", lit: "1u", scalar: "" },
+    ElemTy { ty: "float2", lit: "float2(1, 0)", scalar: ".y" },
+    ElemTy { ty: "float4", lit: "float4(0, 0, 0, 1)", scalar: ".w" },
+    // thorough tier
+    ElemTy { ty: "int", lit: "1", scalar: "" },
+    ElemTy { ty: "float3", lit: "float3(0, 1, 0)", scalar: ".x" },
+];
+
+/// (declarator suffix, subscript of its last element)
+const IFACE_DECLS: [(&str, &str); 4] = [("", ""), ("[2]", "[1]"), ("[1]", "[0]"), ("[2][3]", "[1][2]")];
+
+const IFACE_INTERP: [&str; 2] = ["", "nointerpolation "];
+
+#[derive(Copy, Clone, PartialEq, Eq)]
+struct Attr {
+    ty: usize,
+    decl: usize,
+    /// 0 per vertex, 1 per primitive (mesh pipelines)
+    rate: u8,
+    /// index into IFACE_INTERP: modifier of the pixel input
+    interp: usize,
+}
+
+#[derive(Clone)]
+struct IfaceCase {
+    /// 0 vertex + pixel, 1 mesh + pixel
+    shape: u8,
+    attrs: Vec<Attr>,
+    /// the producing stage writes the attributes through a struct / through one `out` parameter each (vertex stage: every
+    /// attribute; mesh stage: the single per-primitive attribute, per-vertex attributes stay in the vertex struct)
+    producer_struct: bool,
+    /// the pixel entry point reads the attributes through one struct parameter / through one parameter each
+    consumer_struct: bool,
+}
+
+impl IfaceCase {
+    /// whether the parameter form of the producer exists for this attribute list
+    fn direct_producer_exists(shape: u8, attrs: &[Attr]) -> bool {
+        match shape {
+            0 => !attrs.is_empty(),
+            _ => attrs.iter().filter(|a| a.rate == 1).count() == 1,
+        }
+    }
+
+    fn source(&self) -> String {
+        let mut s = String::new();
+        s.push_str("Texture2D g_t;\ncbuffer C { float4 g_c; }\n");
+        let sem = |i: usize| format!("ATTR{}", (b'A' + i as u8) as char);
+        let member = |i: usize, a: &Attr, interp: bool| format!(" {}{} a{}{} : {};", if interp { IFACE_INTERP[a.interp] } else { "" }, IFACE_TYPES[a.ty].ty, i, IFACE_DECLS[a.decl].0, sem(i));
+        let write = |object: &str, i: usize, a: &Attr| format!(" {}a{}{} = {};", object, i, IFACE_DECLS[a.decl].1, IFACE_TYPES[a.ty].lit);
+        let with_rate = |rate: u8| -> Vec<(usize, &Attr)> { self.attrs.iter().enumerate().filter(|(_, a)| a.rate == rate).collect() };
+        // ---- producer
+        if self.shape == 0 {
+            let mut params = String::new();
+            let mut body = String::new();
+            if self.producer_struct {
+                s.push_str("struct VO {");
+                for (i, a) in self.attrs.iter().enumerate() {
+                    s.push_str(&member(i, a, false));
+                    body.push_str(&write("o_s.", i, a));
+                }
+                s.push_str(" };\n");
+                params.push_str(", out VO o_s");
+            } else {
+                for (i, a) in self.attrs.iter().enumerate() {
+                    params.push_str(&format!(", out {} a{}{} : {}", IFACE_TYPES[a.ty].ty, i, IFACE_DECLS[a.decl].0, sem(i)));
+                    body.push_str(&write("", i, a));
+                }
+            }
+            s.push_str(&format!("void VS(uint vid : SV_VertexID, out float4 o_pos : SV_Position{}) {{ o_pos = float4(0, 0, 0, 1);{} }}\n", params, body));
+        } else {
+            let verts = with_rate(0);
+            let prims = with_rate(1);
+            s.push_str("struct MV { float4 position : SV_Position;");
+            let mut body = String::from(" MV v; v.position = float4(0, 0, 0, 1);");
+            for (i, a) in &verts {
+                s.push_str(&member(*i, a, false));
+                body.push_str(&write("v.", *i, a));
+            }
+            s.push_str(" };\n");
+            body.push_str(" o_v[id.x] = v;");
+            let mut prim_param = String::new();
+            if !prims.is_empty() {
+                if self.producer_struct {
+                    s.push_str("struct MP {");
+                    body.push_str(" MP p;");
+                    for (i, a) in &prims {
+                        s.push_str(&member(*i, a, false));
+                        body.push_str(&write("p.", *i, a));
+                    }
+                    s.push_str(" };\n");
+                    body.push_str(" o_p[id.x] = p;");
+                    prim_param.push_str(" out primitives MP o_p[32],");
+                } else {
+                    let (i, a) = prims[0];
+                    prim_param.push_str(&format!(" out primitives {} o_p[32]{} : {},", IFACE_TYPES[a.ty].ty, IFACE_DECLS[a.decl].0, sem(i)));
+                    body.push_str(&format!(" o_p[id.x]{} = {};", IFACE_DECLS[a.decl].1, IFACE_TYPES[a.ty].lit));
+                }
+            }
+            s.push_str(&format!(
+                "[numthreads(32, 1, 1)]\n[outputtopology(\"triangle\")]\nvoid MS(uint3 id : SV_DispatchThreadID, out vertices MV o_v[64],{} out indices uint3 o_t[32]) {{ SetMeshOutputCounts(64, 32);{} o_t[id.x] = uint3(0, 1, 2); }}\n",
+                prim_param, body
+            ));
+        }
+        // ---- consumer
+        let mut params = String::new();
+        let mut reads = String::new();
+        if self.consumer_struct {
+            s.push_str("struct PI {");
+            for (i, a) in self.attrs.iter().enumerate() {
+                s.push_str(&member(i, a, true));
+                reads.push_str(&format!(" r += (float)i.a{}{}{};", i, IFACE_DECLS[a.decl].1, IFACE_TYPES[a.ty].scalar));
+            }
+            s.push_str(" };\n");
+            params.push_str(", PI i");
+        } else {
+            for (i, a) in self.attrs.iter().enumerate() {
+                params.push_str(&format!(", {}{} a{}{} : {}", IFACE_INTERP[a.interp], IFACE_TYPES[a.ty].ty, i, IFACE_DECLS[a.decl].0, sem(i)));
+                reads.push_str(&format!(" r += (float)a{}{}{};", i, IFACE_DECLS[a.decl].1, IFACE_TYPES[a.ty].scalar));
+            }
+        }
+        s.push_str(&format!("float4 PS(float4 pos : SV_Position{}) : SV_Target0 {{ g_t; float r = g_c.x;{} return float4(r, 0, 0, 1); }}\n", params, reads));
+        if self.shape == 0 {
+            s.push_str("Pipeline G { VertexShader = VS; PixelShader = PS; RenderTargetFormat0 = \"R8G8B8A8_UNORM\"; CullMode = \"Back\"; }\n");
+        } else {
+            s.push_str("Pipeline G { MeshShader = MS; PixelShader = PS; RenderTargetFormat0 = \"R16G16B16A16_FLOAT\"; }\n");
+        }
+        s
+    }
+
+    fn case(&self) -> Case {
+        let attrs = self
+            .attrs
+            .iter()
+            .map(|a| format!("{}{}{}{}", IFACE_INTERP[a.interp].trim_end().replace("nointerpolation", "flat "), IFACE_TYPES[a.ty].ty, IFACE_DECLS[a.decl].0, if a.rate == 1 { "/primitive" } else { "/vertex" }))
+            .collect::<Vec<_>>()
+            .join(",");
+        let name = format!(
+            "iface|{}|attrs[{}]|producer-{}|consumer-{}",
+            if self.shape == 0 { "vertex+pixel" } else { "mesh+pixel" },
+            attrs,
+            if self.producer_struct { "struct" } else { "params" },
+            if self.consumer_struct { "struct" } else { "params" }
+        );
+        Case { name, src: self.source(), mode: Mode::All, validate: false }
+    }
+}
+
+/// quick: (a) every single attribute over 5 element types × 4 declarator shapes × both interpolation modifiers × rate, and
+/// (b) every ordered pair of attributes over {float, uint3} × {plain, `[2]`} × rate without modifier; each with every
+/// producer / consumer form that exists, for both pipeline shapes; the empty list first.
+/// thorough: (a) over 7 element types and (b) over 7 element types × 4 declarator shapes × rate (pairs) plus both modifiers
+/// on the second attribute for the quick alphabet.
+fn iface_cases(quick: bool) -> Vec<IfaceCase> {
+    let n_ty_single = if quick { 5 } else { IFACE_TYPES.len() };
+    let (n_ty_pair, n_decl_pair) = if quick { (2, 2) } else { (IFACE_TYPES.len(), IFACE_DECLS.len()) };
+    let mut out: Vec<IfaceCase> = Vec::new();
+    let mut push_forms = |shape: u8, attrs: &[Attr]| {
+        for producer_struct in [true, false] {
+            if !producer_struct && !IfaceCase::direct_producer_exists(shape, attrs) {
+                continue;
+            }
+            for consumer_struct in [false, true] {
+                out.push(IfaceCase { shape, attrs: attrs.to_vec(), producer_struct, consumer_struct });
+            }
+        }
+    };
+    let rates = |shape: u8| -> &'static [u8] { if shape == 0 { &[0] } else { &[0, 1] } };
+    for shape in [0u8, 1u8] {
+        push_forms(shape, &[]);
+    }
+    // (a) one attribute; simplest first: declarator shape, then type, then the rest
+    for decl in 0..IFACE_DECLS.len() {
+        for ty in 0..n_ty_single {
+            for interp in 0..IFACE_INTERP.len() {
+                for shape in [0u8, 1u8] {
+                    for rate in rates(shape) {
+                        push_forms(shape, &[Attr { ty, decl, rate: *rate, interp }]);
+                    }
+                }
+            }
+        }
+    }
+    // (b) two attributes
+    let interps2: &[usize] = if quick { &[0] } else { &[0, 1] };
+    for shape in [0u8, 1u8] {
+        let mut alpha: Vec<Attr> = Vec::new();
+        for decl in 0..n_decl_pair {
+            for ty in 0..n_ty_pair {
+                for rate in rates(shape) {
+                    alpha.push(Attr { ty, decl, rate: *rate, interp: 0 });
+                }
+            }
+        }
+        for a in &alpha {
+            for b in &alpha {
+                for i2 in interps2 {
+                    // the modifier dimension of pairs: the quick alphabet only
+                    if *i2 != 0 && (b.ty >= 2 || b.decl >= 2 || a.ty >= 2 || a.decl >= 2) {
+                        continue;
+                    }
+                    push_forms(shape, &[*a, Attr { interp: *i2, ..*b }]);
+                }
+            }
+        }
+    }
+    out
+}
+
+// ---------------------------------------------------------------------------------------------
 // space 3: declarations whose name is a word that one of the exporters must avoid (read from the exporters' own lists)
 
 fn reserved_words() -> Vec<String> {
@@ -1897,6 +2129,23 @@ pub fn run(ctx: &Ctx) -> i32 {
     rep.absorb("fixed_programs", r);
     eprintln!("[C18] fixed programs done at {:.1}s", ctx.start.elapsed().as_secs_f64());
     rep.cov("fixed_programs_listed", Json::Int(fixed.len() as i64));
+
+    // ---- space 2c: the stage interface of graphics pipelines (run early: it is small and must not be cut by the budget)
+    let ifaces = iface_cases(ctx.quick());
+    let r = run_par(ctx, ifaces.len() as u64, 8, |idx, acc| {
+        acc.cur_index = (8u64 << 40) + idx;
+        let c = ifaces[idx as usize].case();
+        let t0 = thread_cpu_s();
+        check_case(&c, acc);
+        acc.add("cpu_us iface", ((thread_cpu_s() - t0) * 1e6) as u64);
+        if idx % 97 == 5 {
+            acc.sample(obj(vec![("space", "iface".into()), ("case", c.name.as_str().into()), ("source", one_line(&c.src, 400).into())]));
+        }
+    });
+    rep.absorb("stage_interfaces", r);
+    rep.cov("iface_element_types", Json::Int(ctx.pick(5i64, IFACE_TYPES.len() as i64)));
+    rep.cov("iface_declarator_shapes", Json::Int(IFACE_DECLS.len() as i64));
+    eprintln!("[C18] stage interfaces ({} cases) done at {:.1}s", ifaces.len(), ctx.start.elapsed().as_secs_f64());
 
     // ---- space 2: resource sequences × pipelines
     let mut rank = 0u64;
